@@ -128,7 +128,7 @@ async fn main(plan: Plan) -> Outcome {
     for _ in 0..plan.events {
         evs.push((
             tape::range("c19:at", 0, span),
-            tape::weighted("c19:kind", &[3, 3, 2, 2, 2, 1, 2]),
+            tape::weighted("c19:kind", &[3, 3, 2, 2, 2, 1, 2, 1]),
             tape::choose("c19:pick", 64) as usize,
             tape::chance("c19:with_event", 2, 3),
         ));
@@ -266,6 +266,22 @@ async fn main(plan: Plan) -> Outcome {
                     let n = members[pick % members.len()];
                     w.cluster.nodes[n].rack = format!("r{}", pick % 5);
                     w.fault(Fault::Topology);
+                }
+                7 => {
+                    // The control host keeps its connections healthy but fails every
+                    // system-table read for a while: fetches fail, refreshes must still be
+                    // answered (with an error, or after failing over to another node).
+                    let cc_node = w
+                        .conns
+                        .iter()
+                        .find(|c| !c.srv_closed && !c.client_closed && !c.cql.registered.is_empty())
+                        .map(|c| c.node);
+                    if let Some(n) = cc_node {
+                        let until = w.now() + (5 + (pick as u64 % 8) * 5) * SEC;
+                        w.cluster.nodes[n].system_queries_fail_until = until;
+                        w.fault(Fault::SrvError);
+                        w.log(&format!("system_queries_fail node={n}"));
+                    }
                 }
                 6 => {
                     // A member's token ownership changes (same membership, same labels).
